@@ -69,9 +69,36 @@ def nontrivial(cfg, op, o):
     return None
 
 
+def staking_nontrivial(cfg, op, o):
+    if not o["ok"] or not o["settles"]:
+        return None
+    pre = o["pre"]
+    if o["blk"] > pre["last"] and o["acc"] > pre["acc"] and pre["supply"] > 0:
+        return ("staking", op[0], cfg["dsc"], len(str(pre["supply"])) // 4, (o["rps"] - pre["rps"]) == 0)
+    if o["blk"] > pre["last"] and pre["supply"] == 0:
+        return ("staking-idle", op[0])
+    return None
+
+
 def explore(tier, seed, model_ok=True, focus=False):
-    return explore_farm("C06", tier, seed, monitor, nontrivial, RULE, model_ok, focus)
+    """dex/farm histories plus farm-staking histories (its index has the APR cap and the capacity bound)"""
+    from props.staking_common import explore_staking, index_monitor
+    ex = explore_farm("C06", tier, seed, monitor, nontrivial, RULE, model_ok, focus)
+    ex2 = explore_staking("C06", tier, seed, index_monitor, staking_nontrivial, RULE, model_ok, focus, scale=0.5)
+    ex.evaluations += ex2.evaluations
+    ex.histories += ex2.histories
+    ex.nontrivial |= ex2.nontrivial
+    ex.failures += ex2.failures
+    ex.disagreements += ex2.disagreements
+    ex.traces_validated += ex2.traces_validated
+    ex.samples += ex2.samples[:1]
+    for k, v in ex2.counters.items():
+        ex.counters[k] = ex.counters.get(k, 0) + v
+    return ex
 
 
 def replay(data):
+    if data.get("replay", {}).get("system") == "staking":
+        from props.staking_common import replay_staking, index_monitor
+        return replay_staking(data, index_monitor)
     return replay_farm(data, monitor)
